@@ -951,10 +951,12 @@ Record cfun := mkF { f_dir : cdir; f_pad : bool; f_x : xty; f_i : cty; f_loop : 
      VarnEarlyAny   : if (err != NC_NOERR && independent) return err;        (the queued request is not waited for)
      VarnEarlyFatal : if (err != NC_NOERR && err != NC_ERANGE && independent) return err;
    ncmpi_m{put,get}_var*: loop posting one request per variable:
-     MputBreakAny : if (err != NC_NOERR) break;  then wait for the i requests posted BEFORE the failing one *)
+     MputBreakAny : if (err != NC_NOERR) break;  then wait for the i requests posted BEFORE the failing one
+     MputContinue : if (err == NC_ERANGE) { erange = err; err = NC_NOERR; } if (err != NC_NOERR) break;  ... wait for
+                    the i posted requests;  if (err == NC_NOERR) err = erange; *)
 Inductive gate_kind := GateOwn | GateGlobal | GateUnrec.
 Inductive varn_kind := VarnEarlyAny | VarnEarlyFatal | VarnUnrec.
-Inductive mput_kind := MputBreakAny | MputUnrec.
+Inductive mput_kind := MputBreakAny | MputContinue | MputUnrec.
 """
 
 
@@ -989,7 +991,10 @@ def request_level(libdir):
     d = rd('dispatchers/var_getput.c')
     posts = len(re.findall(r'pncp->driver->i(?:put|get)_var\(pncp->ncp,varids\[i\]', d))
     brk = len(re.findall(r'&reqs\[i\],reqMode\);(?:NCI_Free\((?:start|count)\);)?if\(err!=NC_NOERR\)break;\}status=pncp->driver->wait\(pncp->ncp,i,reqs,NULL,reqMode\);NCI_Free\(reqs\);return\(err!=NC_NOERR\)\?\s*err\s*:\s*status;', d))
-    mput = 'MputBreakAny' if posts > 0 and posts == brk else 'MputUnrec'
+    cont = len(re.findall(r'&reqs\[i\],reqMode\);(?:NCI_Free\((?:start|count)\);)?if\(err==NC_ERANGE\)\{erange=err;err=NC_NOERR;\}if\(err!=NC_NOERR\)break;\}status=pncp->driver->wait\(pncp->ncp,i,reqs,NULL,reqMode\);NCI_Free\(reqs\);if\(err==NC_NOERR\)err=erange;return\(err!=NC_NOERR\)\?\s*err\s*:\s*status;', d))
+    inits = len(re.findall(r'int i,reqMode=0,status=NC_NOERR,err,erange=NC_NOERR,\*reqs;', d))
+    mput = 'MputBreakAny' if posts > 0 and posts == brk and cont == 0 else \
+           'MputContinue' if posts > 0 and posts == cont == inits and brk == 0 else 'MputUnrec'
     return gate, varn, mput
 
 def zs(z):
